@@ -69,6 +69,23 @@ Theorem C06_given_frac_minimal_word : forall (signed : bool) wmax vals w f nfr,
   (f < w - sign -> exists v, In v vals /\ ~ (- 2^(w - sign - 1) <= scaled_trunc v f < 2^(w - sign - 1))).
 Proof. exact best_sizes_given_frac. Qed.
 Print Assumptions C06_given_frac_minimal_word.
+(* the same for ANY given fraction length, NEGATIVE ones included (Fxp(8, n_frac=-2): the values are divided by 2^-n_frac, repaired by
+   fix 616bb5f): the fraction length is kept, every exact code fits the word, and a word with magnitude bits has none to spare.  The
+   cap is lowered by a negative n_frac because the search for the integer length stops at n_word_max - sign + n_frac. *)
+Theorem C06_given_any_frac_minimal_word : forall (signed : bool) wmax vals w f nfr,
+  let sign := if signed then 1 else 0 in
+  vals <> [] -> Forall (fun v => - de v <= 198) vals -> Forall (fun v => is_mult v nfr) vals ->
+  best_sizes signed None (Some nfr) wmax vals = Ok (w, f) -> w < wmax + Z.min nfr 0 ->
+  f = nfr /\ f <= w - sign /\
+  Forall (fun v => - 2^(w - sign) <= scaled_trunc v f < 2^(w - sign)) vals /\
+  (f < w - sign -> 0 < w - sign -> exists v, In v vals /\ ~ (- 2^(w - sign - 1) <= scaled_trunc v f < 2^(w - sign - 1))).
+Proof. exact best_sizes_given_frac_any. Qed.
+Print Assumptions C06_given_any_frac_minimal_word.
+Example C06_negative_frac_examples :
+  best_sizes true None (Some (-2)) 64 [ {| dm := 8; de := 0 |} ] = Ok (3, -2) /\
+  best_sizes false None (Some (-4)) 64 [ {| dm := 1; de := 4 |} ; {| dm := 3; de := 5 |} ] = Ok (3, -4) /\
+  is_mult {| dm := 8; de := 0 |} (-2) /\ 3 < 64 + Z.min (-2) 0.
+Proof. vm_compute. repeat split; try reflexivity; discriminate. Qed.
 (* only n_word given (below the cap): the word is kept.  With nfr the least fraction length at which every element is exact:
    the result never exceeds nfr nor the room in the word; when it equals nfr every exact code fits the word (nothing overflows,
    nothing is rounded); when it is smaller and an integer part remains, that integer part w - sign - f is needed: one bit fewer
